@@ -67,6 +67,13 @@ enum Act {
 }
 
 fn scenario(out: &mut Out, networks: usize, acts: &[Act], nontrivial: bool) {
+    scenario_at(out, networks, acts, nontrivial, false)
+}
+
+/// `early`: the networks are scheduled only after the producer has its sender, and the first acts follow WITHOUT
+/// yielding to the executor: a command accepted right after a network was scheduled belongs to that network
+/// (its receiver exists from scheduling time on, not from the first poll of its task)
+fn scenario_at(out: &mut Out, networks: usize, acts: &[Act], nontrivial: bool, early: bool) {
     let rt = tokio::runtime::Builder::new_current_thread().enable_all().build().unwrap();
     let shared = Arc::new(Shared {
         handled: Mutex::new(vec![vec![]; networks]),
@@ -76,10 +83,15 @@ fn scenario(out: &mut Out, networks: usize, acts: &[Act], nontrivial: bool) {
     let line = rt.block_on(async {
         let mut runtime = glonax::Runtime::default();
         runtime.schedule_io_sub_service::<Prod, ProdCfg>(ProdCfg(shared.clone()));
+        if early {
+            settle().await;
+        }
         for i in 0..networks {
             runtime.schedule_net_service::<StubNet, NetCfg>(NetCfg { idx: i, shared: shared.clone() }, Duration::from_secs(3600));
         }
-        settle().await;
+        if !early {
+            settle().await;
+        }
         let tx = shared.sender.lock().unwrap().clone().expect("producer got the command sender");
         let mut toks: Vec<String> = vec![];
         let mut seen = vec![0usize; networks];
@@ -101,6 +113,10 @@ fn scenario(out: &mut Out, networks: usize, acts: &[Act], nontrivial: bool) {
                     next_id += 1;
                 }
                 Act::Release(i, k) => shared.gates[*i].add_permits(*k),
+            }
+            if early && matches!(a, Act::Send) {
+                // no yield between the sends of an early burst
+                continue;
             }
             settle().await;
             observe(&mut toks, &mut seen);
@@ -142,6 +158,13 @@ pub fn run(out: &mut Out, tier: &str, rng: &mut Rng) {
                 scenario(out, networks, &acts, true);
                 out.count("burst+partial release");
             }
+        }
+        // commands accepted immediately after scheduling, before any task of the networks has been polled
+        for burst in [1usize, 2, 6, 16] {
+            let mut acts = vec![Act::Send; burst];
+            acts.push(Act::Release(0, 1));
+            scenario_at(out, networks, &acts, true, true);
+            out.count("commands right after scheduling");
         }
         // the director's emergency burst: six commands per signal, many signals, slow handler
         let mut acts = vec![];
